@@ -142,7 +142,7 @@ func genC11(p *plan.Plan, r *plan.Rng, tier string) {
 	// without it on arguments for which the option would make a difference
 	for k := r.Range(1, 2); k > 0; k-- {
 		if r.Bool() {
-			dt := []string{"Small", "Tagged", "MapStrInt", "MapStrIface", "Nested", "CaseColl", "Wide"}[r.Intn(7)]
+			dt := []string{"Small", "Tagged", "MapStrInt", "MapStrIface", "Nested", "CaseColl", "Wide", "WithNE", "WithUCB"}[r.Intn(9)]
 			a := plan.Step{Op: "unmarshal", T: pickType(r, decodeAllTypes), Opts: []string{"firstwin"}}
 			a.Doc = docFor(r, a.T, 0, 1)
 			if r.Chance(1, 3) {
@@ -154,7 +154,12 @@ func genC11(p *plan.Plan, r *plan.Rng, tier string) {
 			dup := dupKeys(stdDoc(ti, int64(r.U64()>>8)), stdDoc(ti, int64(r.U64()>>8)))
 			for _, op := range []string{"unmarshal", "unmarshal_ctx", "unmarshal_noescape"} {
 				if r.Chance(2, 3) {
-					p.Sessions = append(p.Sessions, one(id("o"), plan.Step{Op: op, T: dt, Doc: dup, S1: "probe"}))
+					st := plan.Step{Op: op, T: dt, Doc: dup, S1: "probe"}
+					if dt == "WithNE" {
+						st.Opts = []string{"prefill"}
+						st.V = valueSeed(r, 0, 1)
+					}
+					p.Sessions = append(p.Sessions, one(id("o"), st))
 				}
 			}
 			if r.Chance(1, 2) {
